@@ -1,5 +1,6 @@
 """C07 -- IP fragments of a payload always reassemble to the original datagram."""
 import struct, itertools
+import carry, random
 import common, diff, gen, progs
 from diff import Case
 from gen import *
@@ -33,16 +34,31 @@ def frag_case(name, r, payload, reqs, opts, rawmode):
     kw = {k: v for k, v in opts.items() if k in ("id", "df", "evil", "ttl", "proto")}
     st.append(Let("g", Call("ipv4::frag", IP(a), IP(b), _x=[STR(payload)], **kw)))
     raws = []
-    for q in reqs:
+    # (stored: every fragment is first bound to a variable, in request order; the variables are then emitted in an order
+    # of their own -- the way a script sends fragments out of order or twice; records follow the emission order)
+    stored = opts.get("stored")
+    emit = []
+    for k, q in enumerate(reqs):
         raw = rawmode if rawmode in (True, False) else (r.random() < 0.5)
         raws.append(raw)
         rk = {"raw": True} if raw else {}
         if q[0] == "fragment":
-            st.append(Do(Call("g.fragment", INT(q[1]), INT(q[2]), **rk)))
+            e = Call("g.fragment", INT(q[1]), INT(q[2]), **rk)
         elif q[0] == "tail":
-            st.append(Do(Call("g.tail", INT(q[1]), **rk)))
+            e = Call("g.tail", INT(q[1]), **rk)
         else:
-            st.append(Do(Call("g.datagram", **rk)))
+            e = Call("g.datagram", **rk)
+        if stored:
+            st.append(Let("f%d" % k, e))
+            emit.append(k)
+        else:
+            st.append(Do(e))
+    if stored:
+        emit += [r.choice(emit) for _ in range(r.randint(0, 2))] if emit else []
+        r.shuffle(emit)
+        st += [Do(Ref("f%d" % k)) for k in emit]
+        reqs = [reqs[k] for k in emit]
+        raws = [raws[k] for k in emit]
     c.stmts = st
     c.gen = {"payload": payload, "reqs": reqs, "opts": opts, "raws": raws}
     return c
@@ -78,6 +94,10 @@ def check(ctx, c, queries, owners):
         got = (src, dst, proto, ident, ttl)
         want = (o["src"], o["dst"], o.get("proto", 17), o.get("id", 0), o.get("ttl", 64))
         if inside:
+            # a receiver discards a fragment whose header checksum does not verify (RFC 791) before it reassembles anything
+            if carry.red(carry.raw_sum(d[:20])) != 0xffff:
+                return ctx.fail("frag-header-csum", "fragment %d (request %s): header %s does not verify, a receiver drops it"
+                                % (i, q, d[:20].hex()), diff.replay_of(c))
             if got != want:
                 return ctx.fail("frag-header", "fragment %d header fields %s, context %s" % (i, got, want), diff.replay_of(c))
             if fo != want_fo:
@@ -155,8 +175,10 @@ def run(ctx):
         if r.random() < 0.2:
             reqs.append(("fragment", r.randint(0, blocks), 0))                 # zero-length
         r.shuffle(reqs)
+        if i % 3 == 2:
+            opts["stored"] = True
         c = frag_case("r%d" % i, r, payload, reqs, opts, None)
-        c.gen["kind"] = "random-cover"
+        c.gen["kind"] = "random-cover" if i % 3 != 2 else "random-cover, fragments stored and emitted in another order"
         cases.append(c)
     # the maximum datagram
     # (in both tiers: offsets above 4095 blocks need the 13th bit of the offset field)
@@ -184,6 +206,40 @@ def run(ctx):
         c = frag_case("t%d" % j, r, payload, reqs, {"src": ip("10.0.0.1"), "dst": ip("10.0.0.2"), "id": 9 + j}, None)
         c.gen["kind"] = "tails"
         cases.append(c)
+    # the datagram id solved for (a first pass with id 0 measures each fragment's header words) so that the header sum of
+    # one chosen fragment needs two carry folds, or is 0 modulo 0xffff -- its siblings in the same context do not
+    tmpl = []
+    for i in range(24 if ctx.thorough else 8):
+        n = r.choice([40, 41, 64, 100, 333])
+        src, dst = rand_ip(r) | (0xf000f000 if i % 2 == 0 else 0), rand_ip(r) | (0xe000e000 if i % 2 == 0 else 0)
+        blocks = (n + 7) // 8
+        reqs = [("fragment", o, 2) for o in range(0, blocks, 2)] + [("tail", blocks - 1), ("datagram",)]
+        opts = {"src": src, "dst": dst, "id": 0}
+        if i % 3 == 1:
+            opts["ttl"] = 255
+        if i % 4 == 2:
+            opts["df"] = True
+        tmpl.append((bytes(r.getrandbits(8) for _ in range(n)), reqs, opts))
+    first = {"d%d" % i: gen.render_program(frag_case("d%d" % i, r, pl, reqs, opts, True).stmts, random.Random(i)) for i, (pl, reqs, opts) in enumerate(tmpl)}
+    _, res1 = common.run_programs("c07first", first)
+    solved = 0
+    for i, (pl, reqs, opts) in enumerate(tmpl):
+        x = res1["d%d" % i]
+        ok1, recs1 = common.pcap_records(x.pcap) if x.status == "ok" else (False, [])
+        if not ok1 or len(recs1) != len(reqs):
+            continue
+        j = r.randrange(len(reqs))
+        h = recs1[j][4][:20]
+        base_sum = carry.raw_sum(h[:10] + b"\x00\x00" + h[12:])          # id is 0 in the first pass, checksum field left out
+        want_id = carry.pick(lambda v: carry.first_fold_carries(base_sum + v), 1, lo=r.randrange(0x8000)) if i % 3 else \
+            carry.pick(lambda v: carry.red(base_sum + v) in (0xffff, 0), 1)
+        if not want_id:
+            continue
+        solved += 1
+        c = frag_case("d%d" % i, r, pl, reqs, dict(opts, id=want_id[0]), None)
+        c.gen["kind"] = "header-sum-solved"
+        cases.append(c)
+    ctx.dist["fragment_headers_steered_onto_carries"] = solved
     # payloads that are themselves raw segments
     for i in range(6 if not ctx.thorough else 20):
         c = Case()
